@@ -28,6 +28,8 @@ def run(ck, F):
     ck.rule("R2", "helper identity: the emitted helper constant equals the source of module model::helpers_content byte for byte; "
                   "FileHeader/Helpers emit exactly their constant; RustDocument::write_xml emits the header first and the helpers last, unconditionally")
     ck.rule("R4", "definition/use spelling agreement per reference class (type names, module names, envelope names)")
+    ck.rule("R3", "skeleton witness: derivations of the output grammar (every emit site, loops 0/1/2, both branches of every condition) rendered "
+                  "with canonical lexemes type-check against the real prelude with the six documented crates")
     ck.rule("R3a", "member separators: every struct member template that can be followed by another member ends with `,`")
     ck.rule("R5", "dependency lexicon: no crate that only zeep depends on is named in the prelude text")
     ck.rule("R6", "name injectivity under loops: definition templates depend on every enclosing loop element or sit in a module/impl that does")
@@ -99,6 +101,7 @@ def run(ck, F):
     rule_spelling(ck, F, X)
     rule_injectivity(ck, F, X)
     rule_member_separators(ck, F, X)
+    rule_skeletons(ck, F)
 
 
 def _ident(text):
@@ -365,3 +368,43 @@ def _exclusive(c1, c2):
     a1 = {(og.nf_str(c[1]), c[2]) for c in c1 if c[0] == "alt"}
     a2 = {(og.nf_str(c[1]), c[2]) for c in c2 if c[0] == "alt"}
     return any((k, not v) in a2 for (k, v) in a1)
+
+
+def rule_skeletons(ck, F):
+    from rules import e4
+    res = e4.run(F, ck.tier)
+    ck.count("R3:samples", res["samples"])
+    ck.count("R3:template instances type-checked", res["instances"])
+    ck.floor("R3", "emit sites covered by a type-checked derivation", res["covered"], 100)
+    for ev in res["uncovered"]:
+        ck.undecided("R3", f"uncovered:{ev.fn.rsplit('::', 1)[-1]}:{_skel_key(ev.skeleton())}", ev.site,
+                     f"template `{ev.skeleton().strip()[:70]}` is not reached by any sampled derivation")
+    seen = set()
+    for d, m in res["template_errors"]:
+        if m is None:
+            key = f"sample:{d['code']}:{_ident(d['text'])}"
+            site = f"{d['segment']}:{d['line']}"
+            fn = "?"
+            tmpl = d["text"]
+        else:
+            site, fnp, tmpl = m
+            fn = fnp.rsplit("::", 1)[-1]
+            key = f"{fn}:{d['code']}:{_skel_key(tmpl)}"
+        if key in seen:
+            continue
+        seen.add(key)
+        ck.violation("R3", key, site,
+                     f"a derivation of the output grammar does not compile ({d['code']}): {d['message'][:200]} — emitted line `{tmpl.strip()[:120]}`", fn=fn)
+    for d in res["other"]:
+        key = f"{d['segment']}:{d['code']}:{_ident(d['text'])}"
+        if key in seen or d["segment"] == "witness":
+            continue
+        seen.add(key)
+        ck.violation("R3", key, f"{d['segment']}:{d['line']}", f"sample crate does not compile ({d['code']}): {d['message'][:200]} | {d['text'][:100]}")
+    if not res["template_errors"] and not [d for d in res["other"] if d["segment"] != "witness"]:
+        ck.ok("R3", "skeletons-typecheck", "witness crate", f"{res['samples']} derivations ({res['instances']} template instances, "
+              f"{res['covered']}/{res['sites']} emit sites) type-check against the prelude")
+
+
+def _skel_key(t):
+    return re.sub(r"\s+", " ", re.sub(r"[A-Za-z0-9_]{12,}", "{}", t)).strip()[:60]
